@@ -49,6 +49,15 @@ def run(chk: core.Check):
                     report(chk, r["text"], mine[0], r["diff"][mine[0]], r["obs"], r["exp"], "split")
     chk.exhaustive = True
     docs = list(docgen.constructive(ncons)) + [docgen.random_doc(rnd, rnd.randint(1, maxb)) for _ in range(nrand)]
+    # "nesting of braces" has no bound in the grammar: groups nested deeper than CPython's recursion limit
+    for depth in (40, 1500):
+        deep = "{" * depth + "x" + "}" * depth
+        d = docgen.Doc()
+        docgen.gen_entry(d, rnd, "deep%d" % depth, fields=[("a", deep), ("b", '"q ' + deep + ' r" # z')], ws=[" "])
+        d.add("\n")
+        docgen.gen_string(d, rnd, "sdeep%d" % depth, deep, ws=[" "])
+        d.add("\n")
+        docs.append(d)
     for how in ("split", "parse0"):
         recs = splitpipe.t3(chk, bib, [d.text for d in docs], how=how, grammar=True)
         for d, r in zip(docs, recs):
@@ -87,8 +96,9 @@ def run(chk: core.Check):
             keys_obs = [[o.get("cls"), o.get("key"), [f[0] for f in o.get("fields", [])]] for o in r["obs"]]
             keys_exp = [[e.get("cls"), e.get("key"), [f[0] for f in e.get("fields", [])]] for e in r["exp"]]
             if keys_obs != keys_exp:
-                i = next(j for j, (a, b) in enumerate(zip(keys_obs, keys_exp)) if a != b)
-                report(chk, d.text, "blocks", f"block {i + 1}: {keys_obs[i]} expected {keys_exp[i]}", r["obs"], r["exp"], "default")
+                i = next((j for j, (a, b) in enumerate(zip(keys_obs, keys_exp)) if a != b), min(len(keys_obs), len(keys_exp)))
+                report(chk, d.text, "blocks", f"block {i + 1}: {keys_obs[i] if i < len(keys_obs) else 'missing'} expected "
+                                              f"{keys_exp[i] if i < len(keys_exp) else 'nothing'}", r["obs"], r["exp"], "default")
     chk.clause("T3.default(one block per source block, classes, keys, field keys)", len(docs))
     chk.sample({"document": docs[-1].text[:400], "truth": [[t["cls"], t.get("key", "")] for t in docs[-1].truth[:8]]})
     chk.assumptions += ["the dialect is the grammar of DESIGN 3.3 (BibGrammar.tla); keys of entries/strings pairwise distinct",
